@@ -329,6 +329,13 @@ def rule_automaton(facts):
                 pairs.add((i_ + 1, i_))
         elif k_ is None:
             cw_sym = True
+    # `self.rep[..=idx].rotate_right(1)`: rep[i + 1] = rep[i] for i < idx and rep[0] = old rep[idx] in one step
+    for blk in b.calls():
+        if (flow.callee(blk.term) or "").endswith("rotate_right") and len(blk.term.args) == 2 and \
+                pat.has_field(tm.of_operand(blk.term.args[0]), "rep") and tm.of_operand(blk.term.args[1]) == ("const", 1):
+            a0 = tm.of_operand(blk.term.args[0])
+            if flow.term_has(a0, lambda q: q[0] == "agg" and str(q[1]).endswith("RangeToInclusive")) and kind_of(blk.idx) != "match":
+                cw_sym = True
     if {(3, 2), (2, 1), (1, 0)} <= pairs and arr[1:] == [0, 1, 2]:
         r.ok("evaluation", {"new-distance rotation": "rep[3]=rep[2]; rep[2]=rep[1]; rep[1]=rep[0] in this order: [_, r0, r1, r2]"})
     else:
